@@ -52,7 +52,7 @@ def attribute(case, reply, why):
     if w[0] == "blk":
         fid = KEY_TO_FINDING.get(w[1])
         if fid is None and "1114111" in w[7].split(","):
-            return "F19"     # scnr2: U+10FFFF is in no character class
+            return "F21"     # scnr2: U+10FFFF is in no character class
         return fid
     return None
 
